@@ -345,6 +345,7 @@ package datalog
 //@ ensures empty: len(*e) == 0 ==> err != nil && res == nil
 //@ ensures single_value: len(*e) == 1 && (*e)[0] is Value && !((*e)[0].(Value).ID is Variable) ==> err == nil && res == (*e)[0].(Value).ID
 //@ ensures single_operator: len(*e) == 1 && !((*e)[0] is Value) ==> err != nil && res == nil
+//@ ensures table: tableGrown(*symbols, old(*symbols)) && (forall j int :: { (*symbols)[j] } 0 <= j && j < old(len(*symbols)) ==> (*symbols)[j] == old((*symbols)[j]))
 
 // ---------------------------------------------------------------------------
 // terms, predicates, fact sets (C05 leaves)
@@ -418,8 +419,9 @@ package datalog
 
 //@ func (m MatchedVariables) Insert(k Variable, v Term) (result bool)
 //@ serves C05 C10
-//@ requires m != nil && termWF(v) && bindingsWF(m)
+//@ requires m != nil && termWF(v) && partialBindingsWF(m)
 //@ modifies mapof(m)
+//@ ensures keeps_wf: partialBindingsWF(m)
 //@ ensures binds: old(m[k]) == nil ==> result && has(m, k) && m[k] != nil && *m[k] == v && fresh(m[k])
 //@ ensures checks: old(m[k]) != nil ==> result == termEq(v, *m[k]) && m[k] == old(m[k])
 //@ ensures others: forall q Variable :: q != k ==> has(m, q) == old(has(m, q)) && m[q] == old(m[q])
@@ -435,7 +437,7 @@ package datalog
 //@ serves C05 C10
 //@ modifies nothing
 //@ loop 0 invariant res != nil && fresh(res) && (forall q Variable :: seen(q) ==> has(m, q) && has(res, q) && res[q] == m[q]) && (forall q Variable :: has(res, q) ==> seen(q))
-//@ ensures copy: res != nil && fresh(res) && (forall q Variable :: has(res, q) == has(m, q)) && (forall q Variable :: has(m, q) ==> res[q] == m[q])
+//@ ensures copy: res != nil && fresh(res) && (forall q Variable :: { dom(res, q) } has(res, q) == has(m, q)) && (forall q Variable :: { dom(res, q) } has(m, q) ==> res[q] == m[q])
 
 // ---------------------------------------------------------------------------
 // worlds
@@ -498,3 +500,59 @@ package datalog
 //@ requires w != nil
 //@ modifies w.runLimits
 //@ defines w.runLimits == woApply(self, old(w.runLimits))
+
+// ---------------------------------------------------------------------------
+// rule application: the join enumerator runs on its own goroutine (producer)
+// and Rule.Apply consumes its channel (DESIGN.md 2.6)
+
+//@ func combine$1(c chan)
+//@ serves C05 C10 C11
+//@ requires c != nil && facts != nil && factsWF(*facts) && predsWF(predicates) && exprsWF(expressions) && syms != nil && partialBindingsWF(variables)
+//@ modifies *syms, spare(*syms)
+//@ chan c yields x: x.error != nil || (x.MatchedVariables != nil && bindingsWF(x.MatchedVariables))
+//@ chan c final_if x: x.error != nil
+//@ chan c closes
+//@ loop 0 modifies current, indexes, elems(indexes), *syms, spare(*syms)
+//@ loop 1 modifies current, elems(indexes)
+//@ loop 2 modifies mapof(vars)
+//@ loop 3 modifies mapof(vars)
+//@ loop 4 modifies e, *syms, spare(*syms)
+//@ loop 0 invariant !sentFinal(c) && len(indexes) == len(predicates) && fresh(arr(indexes)) && tableGrown(*syms, old(*syms)) && tableGrownInLoop(*syms, pre(*syms))
+//@ loop 0 invariant len(predicates) > 0 ==> 0 <= current && current < len(predicates)
+//@ loop 0 invariant vars0: partialBindingsWF(variables)
+//@ loop 0 invariant forall j int :: { indexes[j] } 0 <= j && j < len(indexes) ==> 0 <= indexes[j] && (len(*facts) > 0 ==> indexes[j] < len(*facts))
+//@ loop 0 invariant arity: forall i int :: { predicates[i] } 0 <= i && i < current ==> len((*facts)[indexes[i]].Predicate.Terms) == len(predicates[i].Terms)
+//@ loop 1 invariant !sentFinal(c) && len(indexes) == len(predicates) && fresh(arr(indexes)) && tableGrown(*syms, old(*syms)) && len(predicates) > 0 && len(*facts) > 0
+//@ loop 1 invariant 0 <= current && current < len(predicates)
+//@ loop 1 invariant vars0: partialBindingsWF(variables)
+//@ loop 1 invariant forall j int :: { indexes[j] } 0 <= j && j < len(indexes) ==> 0 <= indexes[j] && indexes[j] < len(*facts)
+//@ loop 1 invariant arity: forall i int :: { predicates[i] } 0 <= i && i < current ==> len((*facts)[indexes[i]].Predicate.Terms) == len(predicates[i].Terms)
+//@ loop 2 invariant lens: len(indexes) == len(predicates)
+//@ loop 2 invariant varsok: vars != nil && partialBindingsWF(vars)
+//@ loop 2 invariant table: tableGrown(*syms, old(*syms))
+//@ loop 2 invariant forall j int :: { indexes[j] } 0 <= j && j < len(indexes) ==> 0 <= indexes[j] && (len(*facts) > 0 ==> indexes[j] < len(*facts))
+//@ loop 2 invariant arity: len(predicates) > 0 ==> len(*facts) > 0 && (forall i int :: { predicates[i] } 0 <= i && i < len(predicates) ==> len((*facts)[indexes[i]].Predicate.Terms) == len(predicates[i].Terms))
+//@ loop 3 invariant 0 <= j && vars != nil && partialBindingsWF(vars)
+//@ loop 4 invariant !sentFinal(c) && tableGrown(*syms, old(*syms)) && tableGrownInLoop(*syms, pre(*syms)) && complete_vars != nil && bindingsWF(complete_vars)
+
+//@ func combine(variables MatchedVariables, predicates []Predicate, expressions []Expression, facts *FactSet, syms *SymbolTable) (res chan)
+//@ serves C05 C10 C11
+//@ requires facts != nil && factsWF(*facts) && predsWF(predicates) && exprsWF(expressions) && syms != nil && partialBindingsWF(variables)
+//@ modifies nothing
+//@ ensures res != nil
+
+//@ func (r Rule) Apply(facts *FactSet, newFacts *FactSet, syms *SymbolTable) (err error)
+//@ serves C05 C10 C11
+//@ requires facts != nil && factsWF(*facts) && newFacts != nil && factsWF(*newFacts) && ruleWF(r) && syms != nil && newFacts != facts && (arr(*facts) != arr(*newFacts) || cap(*newFacts) == 0)
+//@ modifies *newFacts, spare(*newFacts), *syms, spare(*syms)
+//@ loop 0 modifies mapof(variables)
+//@ loop 1 modifies mapof(variables)
+//@ loop 2 modifies *newFacts, spare(*newFacts), *syms, spare(*syms)
+//@ loop 3 modifies elems(predicate.Terms)
+//@ loop 0 invariant variables != nil && fresh(variables) && partialBindingsWF(variables)
+//@ loop 1 invariant variables != nil && fresh(variables) && partialBindingsWF(variables)
+//@ loop 2 invariant wf: factsWF(*newFacts) && factsWF(*facts)
+//@ loop 2 invariant apart: arr(*facts) != arr(*newFacts) || cap(*newFacts) == 0
+//@ loop 2 invariant arr: (arr(*newFacts) == pre(arr(*newFacts)) && off(*newFacts) == pre(off(*newFacts)) && cap(*newFacts) == pre(cap(*newFacts)) && len(*newFacts) >= pre(len(*newFacts))) || freshInLoop(arr(*newFacts))
+//@ loop 3 invariant factsWF(*newFacts) && factsWF(*facts) && len(predicate.Terms) == len(r.Head.Terms) && fresh(arr(predicate.Terms)) && (forall q int :: { predicate.Terms[q] } 0 <= q && q < len(predicate.Terms) ==> termWF(predicate.Terms[q]))
+//@ ensures wf: factsWF(*newFacts)
